@@ -63,6 +63,8 @@ impl VariableMap {
                 self.next_id += 1;
                 let variable_id = VariableId::from_usize(id);
                 entry.insert(variable_id);
+                #[cfg(feature = "verif-hooks")]
+                super::verif::var_solvable(variable_id, solvable_id);
                 self.origins
                     .insert(variable_id, VariableOrigin::Solvable(solvable_id));
                 variable_id
@@ -94,6 +96,8 @@ impl VariableMap {
         let id = self.next_id;
         self.next_id += 1;
         let variable_id = VariableId::from_usize(id);
+        #[cfg(feature = "verif-hooks")]
+        super::verif::var_forbid(variable_id, name);
         self.origins
             .insert(variable_id, VariableOrigin::ForbidMultiple(name));
         variable_id
